@@ -493,18 +493,30 @@ def _pairing(ctx) -> None:
     others = (("param", f.params[1]), ("call", ("attr", SELF, "_check_duplicate"), (("param", f.params[1]),), ()))
     opf = ("param", f.params[2])
     seen_comps = {}
+    seen_fallbacks = [0]
     for s, d, cp in sites:
         if cp is None or len(cp[0]) != 1:
             continue
         it = s.it
         (L,), extra, v, ev = cp
-        if v[0] == "tuple":
-            continue                                        # the (x, y) fallback of incompatible types
         key = (id(it), d)
         if key in seen_comps:
             continue
         lp = it.loops[L]
         problems = []
+        # the (x, y) fallback of incompatible operands: a None on either side stays None there too (C06: None propagates through
+        # EVERY elementwise result - dates - [1, 2, 3] gave (None, 2))
+        if lp.domain is not None and lp.domain[0] == "tuple" and len(lp.domain[1]) == 2:
+            fx, fy = ("elem", lp.domain[1][0], L), ("elem", lp.domain[1][1], L)
+            pair = ("tuple", (fx, fy))
+            if v == pair or _none_kept(v, (fx, fy)) == pair:
+                n_fb = seen_fallbacks[0] = seen_fallbacks[0] + 1
+                ctx.ob("c.pairing", f, f"fallback:{n_fb}", v != pair, "incompatible-operand fallback: None kept, else the (x, y) pair", ev.node,
+                       message="the incompatible-operand fallback pairs every position, a None element included: the result holds "
+                               "(None, y) where every other elementwise result has None")
+                continue
+        if v[0] == "tuple":
+            continue
         if lp.domain is not None and lp.domain[0] == "tuple":
             doms = lp.domain[1]
             if not (len(doms) == 2 and doms[0] == SELF and doms[1] in others):
@@ -825,6 +837,9 @@ def _wrappers(ctx) -> None:
             return True
         if t[0] == "call" and t[1] == ("name", "Vector") and len(t[2]) == 1 and not t[3]:
             return is_other(t[2][0])
+        if t[0] == "obj" and it.objs[t[1]].kind in ("list", "tuple") and isinstance(it.objs[t[1]].node, ast.Call) \
+                and len(it.objs[t[1]].init) == 1:
+            return is_other(it.objs[t[1]].init[0])          # list(other): the same items, materialised once
         if t[0] == "ifexp":
             return is_other(t[2]) and is_other(t[3])
         return False
@@ -858,9 +873,13 @@ def _wrappers(ctx) -> None:
         else:
             problems.append(f"iterates `{show(lp.iter, s_.it)[:40]}`, not self")
             continue
+        # n days later: date.fromordinal(s.toordinal() + n), or s + timedelta(days=n) (which also keeps the time of a datetime element)
         day = ("call", ("attr", ("name", "date"), "fromordinal"), (("bin", "Add", ("call", ("attr", x, "toordinal"), (), ()), y),), ())
-        if _none_kept(v, xs, s_.ev.conds) != day:
-            problems.append(f"day arithmetic `{show(v, s_.it)[:80]}` is not date.fromordinal(s.toordinal() + n) with None kept")
+        day2 = ("bin", "Add", x, ("call", ("name", "timedelta"), (), (("days", y),)))
+        got = _none_kept(v, xs, s_.ev.conds)
+        if got != day and got != day2:
+            problems.append(f"day arithmetic `{show(v, s_.it)[:80]}` is not `s + timedelta(days=n)` / date.fromordinal(s.toordinal() + n) "
+                            f"with None kept")
     ctx.ob("e.wrappers", f, "date-add", not problems, "dates + int adds days; anything else uses the generic kernel", f.node,
            message="_Date.__add__: " + "; ".join(problems[:2]))
     # a PLAIN SEQUENCE of day counts must reach the day arithmetic too (the statement's operand forms: vector, scalar, plain
@@ -872,8 +891,8 @@ def _wrappers(ctx) -> None:
             continue
         for d in lp.domain[1]:
             for t in _st(d):
-                if t[0] == "ifexp" and t[2][0] == "call" and t[2][1] == ("name", "Vector") and t[2][2] == (OTHER,) and t[3] == OTHER \
-                        and any(x[0] == "call" and x[1] == ("name", "isinstance") and x[2][0] == OTHER for x in _st(t[1])):
+                if t[0] == "ifexp" and t[2][0] == "call" and t[2][1] == ("name", "Vector") and len(t[2][2]) == 1 and t[3] == t[2][2][0] \
+                        and is_other(t[3]) and any(x[0] == "call" and x[1] == ("name", "isinstance") for x in list(_st(t[1])) + list(_st(d))):
                     seq_ok = True
     ctx.ob("e.wrappers", f, "date-add-sequence", seq_ok, "a plain sequence of day counts is normalised to a vector of them", f.node,
            message="_Date.__add__: a plain list / tuple of day counts does not reach the day arithmetic (only an int vector and an int scalar "
